@@ -543,3 +543,18 @@ PROPS["C09"]["kani"].append(H(RECORD, "c02_successor_durability_walk_chain2", "s
 PROPS["C09"]["functions"].append(RECORD + "::successor_is_durable_or_deleted")
 PROPS["C09"]["level_text"] += " E1: the retirement guard successor_is_durable_or_deleted (two-successor chains, symbolic sectors/refcounts) equals the reference walk on first AND repeated evaluation and never memoises `safe` on a record whose own successor chain is not durable or deleted – so a failed batch followed by another retirement pass cannot retire the last durable generation."
 PROPS["C02"]["level_text"] += " The successor-walk harness also decides memo soundness and re-evaluation (shared with C09)."
+PROPS["C18"]["level_text"] += (" The read path's stale-extent retry loop (resolve_value, behind get/get_bytes/range_query/CAS/increment/patch) is bounded: in one arbitrary iteration "
+                               "every path back to the loop header consumed an element of the constant range 0..STALE_READ_RETRY_LIMIT – also when the SAME generation is found stale again. "
+                               "Over two rounds the periodic coordinator always sleeps for the constant WRITE_BUFFER_FLUSH_INTERVAL (no back-off).")
+PROPS["C18"]["functions"] += ["src/core/store/operations.rs::resolve_value"]
+PROPS["C19"]["level_text"] += " Bounded wake-up: over two rounds of the periodic coordinator every thread::sleep is for the same value, the constant item WRITE_BUFFER_FLUSH_INTERVAL (no idle back-off, no drift)."
+PROPS["C04"]["level_text"] += (" One repair transaction: at most one retire_extents call after the scan loop; the expired-winner pass runs before it, appends to the same queue, is not handed the "
+                               "device and contains no device write.")
+PROPS["C11"]["level_text"] += " The sweeper removes the ordered-index slot while it still holds the entry guard (before the hash entry is removed), so a key re-created right after keeps its slot."
+PROPS["C13"]["level_text"] += " The sweeper removes and un-counts only the pointer-identical sampled generation (witness: deterministic replacement between sample and guard)."
+PROPS["C12"]["level_text"] += (" Shared with C01/C07/C13: on every path of the update/replace/delete/insert sites the version-clock observation comes after the last fallible step and only on publishing paths – "
+                               "an explicit timestamp carried by a failing call is never absorbed.")
+PROPS["C12"]["functions"] += ["src/core/store/internal.rs::update_record_with_ttl", "src/core/store/internal.rs::update_record_with_ttl_bytes", "src/core/store/atomic.rs::replace_record_if_current", "src/core/store/operations.rs::delete_with_timestamp"]
+PROPS["C16"]["level_text"] += (" CLOCK policy, one arbitrary step of the bucket sweep (usage > low watermark assumed and re-established): an entry is evicted only if its own reference bit was read clear "
+                               "(removed index = inspected index, index not advanced); a referenced entry is never removed in that step, its bit is cleared and the index advances; the sweep continues only above the watermark.")
+PROPS["C16"]["outside"] = "clear(), cache-on/off equivalence as executions, concurrency"
